@@ -93,6 +93,12 @@ std::optional<std::string> sqf::runtime::fileio::read_file_from_disk(std::string
     {
         return {};
     }
+    // A directory can be opened for reading too, but its "size" is garbage
+    std::error_code ec;
+    if (!std::filesystem::is_regular_file(std::filesystem::path(std::string(physical_path)), ec))
+    {
+        return {};
+    }
     std::ifstream file(physical_path.data(), std::ios::ate | std::ios::binary);
 
     if (!file.is_open())
